@@ -259,6 +259,8 @@ def gen_step(rnd, frnd, big=False):
         st["silent"] = True
     if api == "parser" and rnd.random() < 0.5:
         st["shared_parser"] = True
+    if api == "parser" and rnd.random() < 0.25:
+        st["kw"] = True
     return st
 
 
@@ -529,8 +531,12 @@ def do_step(k, plan, fs, ctx, rnd, sfp):
                     parser = SHARED["parser"]
                 else:
                     parser = sfp.SequenceFileParser()
-                if plan.get("silent"):
-                    val = parser.parseSeqFile(path, silent=True)
+                if plan.get("silent") and plan.get("kw"):
+                    val = parser.parseSeqFile(filename=path, silent=True)
+                elif plan.get("silent"):
+                    val = parser.parseSeqFile(path, True)
+                elif plan.get("kw"):
+                    val = parser.parseSeqFile(filename=path)
                 else:
                     val = parser.parseSeqFile(path)
             elif api == "SP":
